@@ -135,7 +135,6 @@ def let_chain(assigns, env0, result, mode='R', hooks=None):
 # gcirc
 # ----------------------------------------------------------------------------
 
-GC_IN = ['rarad1', 'dcrad1', 'rarad2', 'dcrad2']
 GC_ARGS = ['ra1', 'dec1', 'ra2', 'dec2']
 
 
@@ -149,6 +148,13 @@ def units_test(test):
 
 
 def gen_gcirc(src):
+    """Two source shapes are recognised, both of the form
+         if units == k: <four assignments from ra1, dec1, ra2, dec2> ... else: raise
+         <straight-line assignments ending in dis = ...>
+         if units == 0: return dis else: return <expr in dis>
+       The four names assigned in the branches are free (rarad1, dcrad1, rarad2, dcrad2 in the original; dcrad1, dcrad2,
+       deldec, delra when the differences are taken before the conversion to radians); they must be the same names, in the
+       same order, in every branch."""
     tree = ast.parse(src)
     fn = find_function(tree, 'gcirc')
     if [a.arg for a in fn.args.args] != GC_ARGS + ['units']:
@@ -159,12 +165,18 @@ def gen_gcirc(src):
         raise Unrecognised('gcirc body shape')
     # --- input conversion chain
     branches = []
+    inner = None
     node = body[0]
     while True:
         k = units_test(node.test)
         asg = simple_assigns(node.body)
-        if [a[0] for a in asg] != GC_IN or len(asg) != len(node.body):
+        names = [a[0] for a in asg]
+        if len(asg) != len(node.body) or len(names) != 4 or len(set(names)) != 4 or set(names) & set(GC_ARGS + ['units']):
             raise Unrecognised('gcirc units branch %d' % k)
+        if inner is None:
+            inner = names
+        elif names != inner:
+            raise Unrecognised('gcirc units branch %d assigns %s, expected %s' % (k, names, inner))
         env = {a: a for a in GC_ARGS}
         branches.append((k, [rexpr(v, env) for _, v, _ in asg]))
         if len(node.orelse) == 1 and isinstance(node.orelse[0], ast.If):
@@ -178,16 +190,20 @@ def gen_gcirc(src):
     asg = simple_assigns(mid)
     if len(asg) != len(mid) or not asg or asg[-1][0] != 'dis':
         raise Unrecognised('gcirc middle part')
-    env = {a: a for a in GC_IN}
+    env = {a: a for a in inner}
     chain = let_chain([(n, v) for n, v, _ in asg], env, 'dis')
-    # also sindis^2 (argument of the sqrt) as its own definition when sindis = np.sqrt(e)
+    # sindis^2 (argument of the sqrt) as its own definition when sindis = np.sqrt(e)
     sq = None
+    pre = []
     for n, v, _ in asg:
         if n == 'sindis':
             if not (isinstance(v, ast.Call) and call_name(v.func) == 'sqrt' and len(v.args) == 1):
                 raise Unrecognised('sindis is not np.sqrt(...)')
-            pre = [(m, w) for m, w, _ in asg if m in ('deldec2', 'delra2')]
-            sq = let_chain(pre, env, rexpr(v.args[0], dict(env, deldec2='deldec2', delra2='delra2')))
+            env2 = dict(env)
+            env2.update({m: m for m, _ in pre})
+            sq = let_chain(pre, env, rexpr(v.args[0], env2))
+            break
+        pre.append((n, v))
     if sq is None:
         raise Unrecognised('no sindis')
     # --- output conversion
@@ -205,23 +221,27 @@ def gen_gcirc(src):
     for k, exprs in branches:
         conv += 'if (units =? %d)%%Z then %s\n  else ' % (k, tup(exprs))
     conv += '(0, 0, 0, 0)'
+    params = ' '.join(inner)
     out = ['(* GENERATED by translate/c18.py from pydl/goddard/astro.py (gcirc, line %d) -- do not edit *)' % fn.lineno,
            'From Coq Require Import Reals ZArith List.', 'Import ListNotations.', 'Open Scope R_scope.', '',
            'Definition gcirc_valid_units : list Z := %s.' % ('[' + '; '.join('%d%%Z' % k for k, _ in branches) + ']'),
            'Definition gcirc_default_units : Z := %s%%Z.' % (default_units if isinstance(default_units, int) else '(-1)'),
            '',
-           '(* input conversion: (rarad1, dcrad1, rarad2, dcrad2); an invalid `units` raises ValueError in the source *)',
+           '(* input conversion: %s; an invalid `units` raises ValueError in the source *)' % tup(inner),
            'Definition gcirc_in (units : Z) (ra1 dec1 ra2 dec2 : R) : R * R * R * R :=\n  %s.' % conv,
            '',
            '(* argument of the square root *)',
-           'Definition gcirc_sindis2 (rarad1 dcrad1 rarad2 dcrad2 : R) : R :=\n  %s.' % sq,
+           'Definition gcirc_sindis2 (%s : R) : R :=\n  %s.' % (params, sq),
            '',
-           'Definition gcirc_dis (rarad1 dcrad1 rarad2 dcrad2 : R) : R :=\n  %s.' % chain,
+           'Definition gcirc_dis (%s : R) : R :=\n  %s.' % (params, chain),
            '',
            'Definition gcirc_out (units : Z) (dis : R) : R :=\n  if (units =? %d)%%Z then %s else %s.' % (k0, out_then, out_else),
            '',
+           '(* the square-root argument and the result as functions of the caller\'s arguments *)',
+           'Definition gcirc_h (units : Z) (ra1 dec1 ra2 dec2 : R) : R :=\n'
+           '  let \'(p1, p2, p3, p4) := gcirc_in units ra1 dec1 ra2 dec2 in gcirc_sindis2 p1 p2 p3 p4.',
            'Definition gcirc_gen (units : Z) (ra1 dec1 ra2 dec2 : R) : R :=\n'
-           '  let \'(a1, d1, a2, d2) := gcirc_in units ra1 dec1 ra2 dec2 in gcirc_out units (gcirc_dis a1 d1 a2 d2).',
+           '  let \'(p1, p2, p3, p4) := gcirc_in units ra1 dec1 ra2 dec2 in gcirc_out units (gcirc_dis p1 p2 p3 p4).',
            '']
     return '\n'.join(out)
 
